@@ -127,6 +127,7 @@ type plug struct {
 	typ  int
 	mask uint32
 	veto uint32
+	side int
 	inst erpc.Plugin
 }
 
@@ -238,12 +239,14 @@ var pushFuncs = []interface{}{Hpa, Hpb, Hpc}
 // ---- configuration ops ----
 
 type op struct {
-	kind   string // sub route unk left right
+	kind   string // sub route unk left right remove
 	parent int    // router index (sub, route)
 	hkind  int
 	hid    int
 	hstat  int32
 	plugs  []*plug
+	name   int  // remove: id of the plugin whose name is handed to PluginContainer.Remove
+	rmErr  bool // remove: Remove returned an error
 }
 
 func kindSym(k int) string {
@@ -263,6 +266,8 @@ func (o *op) val() string {
 		return VL(VS("unk"), kindSym(o.hkind), VN(int64(o.hid)), VZ(int64(o.hstat)), plugsVal(o.plugs))
 	case "left":
 		return VL(VS("left"), plugsVal(o.plugs))
+	case "remove":
+		return VL(VS("remove"), VN(int64(o.name)))
 	default:
 		return VL(VS("right"), plugsVal(o.plugs))
 	}
@@ -283,8 +288,70 @@ func (s *spec) apply(o *op) {
 		s.right = append(append([]*plug{}, s.right...), o.plugs...)
 	case "sub":
 		s.chains = append(s.chains, append(append([]*plug{}, s.chains[o.parent]...), o.plugs...))
+	case "remove": // only a plugin of the global chain can be removed; the others keep their place
+		if s.onGlobal(o.name) {
+			s.left, s.right = without(s.left, o.name), without(s.right, o.name)
+		}
 	}
 }
+
+func (s *spec) onGlobal(id int) bool {
+	for _, p := range s.global() {
+		if p.id == id {
+			return true
+		}
+	}
+	return false
+}
+
+func without(ps []*plug, id int) []*plug {
+	out := []*plug{}
+	for _, p := range ps {
+		if p.id != id {
+			out = append(out, p)
+		}
+	}
+	return out
+}
+
+// removeOp picks the name handed to PluginContainer.Remove: mostly a plugin of the global chain,
+// sometimes one registered with a group / handler (Remove must refuse and change nothing) or a
+// name nobody carries; runs it on the peer, and checks the returned error against the property.
+func removeOp(st *Stats, i int, g *gen, sp *spec, pc *erpc.PluginContainer, side int) *op {
+	r := g.cfg.Rng
+	glob := sp.global()
+	id := -1
+	switch k := r.Intn(10); {
+	case k < 7 && len(glob) > 0:
+		id = glob[r.Intn(len(glob))].id
+		st.Count("remove:global")
+	case k < 9:
+		var others []int
+		for pid, p := range g.all {
+			if !sp.onGlobal(pid) && p.inst != nil && sideOf(p) == side {
+				others = append(others, pid)
+			}
+		}
+		sort.Ints(others)
+		if len(others) > 0 {
+			id = others[r.Intn(len(others))]
+			st.Count("remove:not-global")
+		}
+	}
+	if id < 0 {
+		id = 100000 + r.Intn(1000)
+		st.Count("remove:unknown-name")
+	}
+	o := &op{kind: "remove", name: id}
+	want := !sp.onGlobal(id)
+	o.rmErr = pc.Remove(fmt.Sprintf("p%d", id)) != nil
+	if o.rmErr != want {
+		st.Fail(i, "remove-error", fmt.Sprintf("PluginContainer.Remove(p%d) returned error=%v, the plugin is on the global chain: %v", id, o.rmErr, !want), "")
+	}
+	return o
+}
+
+func sideOf(p *plug) int { return p.side }
 
 func (s *spec) global() []*plug { return append(append([]*plug{}, s.left...), s.right...) }
 
@@ -588,7 +655,7 @@ func (g *gen) newPlug(side int) *plug {
 	default:
 		typ = r.Intn(len(plugMasks))
 	}
-	p := &plug{id: g.nextID, typ: typ, mask: plugMasks[typ]}
+	p := &plug{id: g.nextID, typ: typ, mask: plugMasks[typ], side: side}
 	g.nextID++
 	for s := 0; s < nStages; s++ {
 		if s != stPreReadHeader && p.impl(s) && r.Float64() < g.vetoP {
@@ -663,7 +730,7 @@ func runC09(cfg *RunCfg) {
 		}
 	})
 	st := NewStats("C09", cfg)
-	st.Rule = "case = one router tree (depth <= 4, 0..6 plugins per SubRoute/Route*/SetUnknown*/AppendLeft/AppendRight, ops in random order incl. globals appended after registration) plus caller-side globals, driven with 6 messages (call/push to a registered, wrong-kind or unregistered path); each plugin = one of 96 generated types (stage subsets incl. every single stage) with random refusals; distinct by (ops, messages); non-trivial = at least one hook fired on each side and the target was a registered handler"
+	st.Rule = "case = one router tree (depth <= 4, 0..6 plugins per SubRoute/Route*/SetUnknown*/AppendLeft/AppendRight, PluginContainer.Remove of a global / non-global / unknown name between and after the registrations on either peer, ops in random order incl. globals appended after registration) plus caller-side globals, driven with 6 messages (call/push to a registered, wrong-kind or unregistered path); each plugin = one of 96 generated types (stage subsets incl. every single stage) with random refusals; distinct by (ops, messages); non-trivial = at least one hook fired on each side and the target was a registered handler"
 	w := NewCaseWriter(cfg)
 	distinct := DistinctSet{}
 	r := cfg.Rng
@@ -797,12 +864,14 @@ func runC09(cfg *RunCfg) {
 				}
 				unk[hk] = h
 				tr.handlers = append(tr.handlers, h)
-			case c < 86:
+			case c < 84:
 				o = &op{kind: "left", plugs: g.plugs(sideSrv)}
 				srv.PluginContainer().AppendLeft(insts(o.plugs)...)
-			default:
+			case c < 94 || shape == 2:
 				o = &op{kind: "right", plugs: g.plugs(sideSrv)}
 				srv.PluginContainer().AppendRight(insts(o.plugs)...)
+			default: // PluginContainer.Remove between registrations
+				o = removeOp(st, i, g, sp, srv.PluginContainer(), sideSrv)
 			}
 			srvOps = append(srvOps, o)
 			sp.apply(o)
@@ -842,6 +911,16 @@ func runC09(cfg *RunCfg) {
 			}
 		}
 
+		// removals after every registration, nothing appended afterwards (a third of the trees):
+		// the chains of routes registered BEFORE must lose the plugin too
+		if r.Intn(3) == 0 {
+			for k := 1 + r.Intn(2); k > 0; k-- {
+				o := removeOp(st, i, g, sp, srv.PluginContainer(), sideSrv)
+				srvOps = append(srvOps, o)
+				sp.apply(o)
+			}
+		}
+
 		// ---- caller configuration: globals only ----
 		var cliOps []*op
 		csp := &spec{chains: [][]*plug{nil}}
@@ -857,6 +936,11 @@ func runC09(cfg *RunCfg) {
 			} else {
 				cli.PluginContainer().AppendLeft(insts(o.plugs)...)
 			}
+			cliOps = append(cliOps, o)
+			csp.apply(o)
+		}
+		if r.Intn(4) == 0 {
+			o := removeOp(st, i, g, csp, cli.PluginContainer(), sideCli)
 			cliOps = append(cliOps, o)
 			csp.apply(o)
 		}
@@ -1195,7 +1279,13 @@ func runC09(cfg *RunCfg) {
 			probeIn = append(probeIn, VL(VN(int64(oldcap)), VN(int64(ln+add))))
 			probeObs = append(probeObs, VN(int64(cap(s))))
 		}
-		w.Add(VL(VL(opsV...), VL(cliV...), VL(msgV...), VL(probeIn...)), VL(VL(obsV...), VL(probeObs...)))
+		var rmV []string
+		for _, o := range append(append([]*op{}, srvOps...), cliOps...) {
+			if o.kind == "remove" {
+				rmV = append(rmV, VBool(o.rmErr))
+			}
+		}
+		w.Add(VL(VL(opsV...), VL(cliV...), VL(msgV...), VL(probeIn...)), VL(VL(obsV...), VL(probeObs...), VL(rmV...)))
 		st.Count(fmt.Sprintf("tree:routers=%d", len(routers)))
 		st.Count(fmt.Sprintf("tree:vetoP=%v", g.vetoP))
 		st.Count(fmt.Sprintf("tree:shape=%d", shape))
